@@ -255,12 +255,16 @@ void SE3TangentBase<_Derived>::fillQ(
 
     Scalar A(0.5), B, C, D;
 
-    // Small angle approximation
-    if (theta_sq <= Constants<Scalar>::eps)
+    // Series expansions for small angles,
+    // the closed forms below suffer from cancellation.
+    if (theta_sq < Scalar(1e-2))
     {
-      B =  Scalar(1./6.)  + Scalar(1./120.)  * theta_sq;
-      C = -Scalar(1./24.) + Scalar(1./720.)  * theta_sq;
-      D = -Scalar(1./60.);
+      B =  Scalar(1./6.)  - theta_sq * (Scalar(1./120.)  - theta_sq * (Scalar(1./5040.)  -
+           theta_sq * (Scalar(1./362880.)  - theta_sq * Scalar(1./39916800.))));
+      C = -Scalar(1./24.) + theta_sq * (Scalar(1./720.)  - theta_sq * (Scalar(1./40320.) -
+           theta_sq * (Scalar(1./3628800.) - theta_sq * Scalar(1./479001600.))));
+      D = -Scalar(1./60.) + theta_sq * (Scalar(1./1260.) - theta_sq * (Scalar(1./60480.) -
+           theta_sq * (Scalar(1./4989600.) - theta_sq * Scalar(1./622702080.))));
     }
     else
     {
